@@ -9,6 +9,9 @@
 // Variants whose registration API carries the suffix "+x" run over an extended alphabet: registration of
 // text identical to what the cache already holds, and content changes in L1 that do not come with a
 // newer timestamp (equal / older; with real files same length / different length).
+// Variants with the suffix "+b": a loader's copy of the name can be replaced by text that does not parse;
+// the first loader that has the name wins, so the lookup has to fail — a later loader's copy (there is a
+// third loader in the "sep3" arrangement) is never served in its place.
 //
 //	phase A  every history over the alphabet up to the depth bound, no pruning (each history is
 //	         replayed on a fresh engine)
@@ -49,11 +52,21 @@ type tsLoader struct { // L1: timestamp-aware
 	// file is controlled there; it renders as nothing). content = src + pad is what the loader holds
 	pad  map[string]string
 	flen map[string]int // length of the padded file
-	st   *stats
-	fs   *twig.FileSystemLoader // "fs" arrangement: the real loader answers, this type only counts
+	// brk: the copy of this name does not parse ("+b" alphabet): an unclosed tag follows the version tag
+	brk map[string]bool
+	st  *stats
+	fs  *twig.FileSystemLoader // "fs" arrangement: the real loader answers, this type only counts
 }
 
-func (l *tsLoader) content(n string) string { return l.src[n] + l.pad[n] }
+func (l *tsLoader) content(n string) string {
+	if l.brk[n] {
+		return l.src[n] + l.pad[n] + unparsable
+	}
+	return l.src[n] + l.pad[n]
+}
+
+// unparsable: appended to the version tag of a copy that must not parse (a block tag that is never closed).
+const unparsable = "{% if 1 %}"
 
 func (l *tsLoader) Load(n string) (string, error) {
 	l.st.loads[n]++
@@ -188,16 +201,25 @@ func (l *tsLoader) write(n string) { // mirror src/pad/mt of one name to disk
 type plainLoader struct { // L2: no timestamps (mt is only reported in the "ts2" arrangement, through tsPlain)
 	src map[string]string
 	mt  map[string]int64
+	brk map[string]bool // the copy of this name does not parse ("+b" alphabet)
 	st  *stats
+	id  string // "L2", "L3"
+}
+
+func (l *plainLoader) content(n string) string {
+	if l.brk[n] {
+		return l.src[n] + unparsable
+	}
+	return l.src[n]
 }
 
 func (l *plainLoader) Load(n string) (string, error) {
 	l.st.loads[n]++
 	l.st.consult[n]++
-	if s, ok := l.src[n]; ok {
-		return s, nil
+	if _, ok := l.src[n]; ok {
+		return l.content(n), nil
 	}
-	return "", fmt.Errorf("%w: %s (L2)", twig.ErrTemplateNotFound, n)
+	return "", fmt.Errorf("%w: %s (%s)", twig.ErrTemplateNotFound, n, l.id)
 }
 func (l *plainLoader) Exists(n string) bool { l.st.consult[n]++; _, ok := l.src[n]; return ok }
 
@@ -238,6 +260,9 @@ const (
 	opEq1     // new content in L1, SAME timestamp (with real files: same length)
 	opOld1    // new content in L1, timestamp OLDER than every timestamp so far (real files: same length)
 	opEqLen1  // real files only: new content of a DIFFERENT length in L1, same timestamp
+	// the "+b" alphabet only:
+	opBrk1 // new content in L1 that does NOT PARSE (unclosed tag), newer timestamp
+	opBrk2 // new content in L2 that does not parse (newer timestamp where L2 reports timestamps)
 )
 
 type op struct {
@@ -246,7 +271,7 @@ type op struct {
 }
 
 func (o op) String() string {
-	names := [...]string{"cache0", "cache1", "reload0", "reload1", "dev0", "dev1", "reg", "modL1", "modL2", "touchL1", "delL1", "delL2", "load", "render", "renderinc", "touchL2", "regsame", "eqL1", "oldL1", "eqlenL1"}
+	names := [...]string{"cache0", "cache1", "reload0", "reload1", "dev0", "dev1", "reg", "modL1", "modL2", "touchL1", "delL1", "delL2", "load", "render", "renderinc", "touchL2", "regsame", "eqL1", "oldL1", "eqlenL1", "brkL1", "brkL2"}
 	if o.n == "" {
 		return names[o.k]
 	}
@@ -274,8 +299,18 @@ var alphabetTS2 = append(append([]op{}, alphabet...), op{opTouch2, "n1"})
 var alphabetX = append(append([]op{}, alphabet...), op{opRegSame, "n1"}, op{opEq1, "n1"}, op{opOld1, "n1"})
 var alphabetXFS = append(append([]op{}, alphabetX...), op{opEqLen1, "n1"})
 
+// The "+b" alphabet (again a variant dimension): a loader's copy of n1 is replaced by text that does not
+// parse. "The first that has the name wins" — also when what it has is unusable: the lookup has to fail,
+// a later loader's copy must never be served in its place.
+var alphabetB = append(append([]op{}, alphabet...), op{opBrk1, "n1"}, op{opBrk2, "n1"})
+var alphabetBTS2 = append(append([]op{}, alphabetTS2...), op{opBrk1, "n1"}, op{opBrk2, "n1"})
+
 func alphabetOf(v variant) []op {
 	switch {
+	case v.brk() && v.l2ts():
+		return alphabetBTS2
+	case v.brk():
+		return alphabetB
 	case v.ext() && v.realFS():
 		return alphabetXFS
 	case v.ext():
@@ -299,18 +334,24 @@ type variant struct {
 	// FileSystemLoader as L1; "ts2" L1 then L2, both timestamp-aware;
 	// "chainfs" one ChainLoader holding the real FileSystemLoader (L1) IN FRONT OF the in-memory L2;
 	// "chainfsrev" one ChainLoader holding the in-memory L2 in front of the real FileSystemLoader (L1);
-	// "chainrev" the in-memory counterpart of chainfsrev (ChainLoader with L2 before L1)
+	// "chainrev" the in-memory counterpart of chainfsrev (ChainLoader with L2 before L1);
+	// "sep3" L1, L2 and then a third loader L3 that always holds a usable copy of n1
 	Arr string
 	// Start: "empty" loaders; "seeded" n1 in L1 and L2, n2 in L2; "late" n1 only in the loader that is
 	// registered last, n2 in L2; "seededar" like seeded, and the engine starts with auto-reload ON
 	Start string
 	// Reg: "str" RegisterString, "tpl" RegisterTemplate, "cmp" RegisterCompiledTemplate; with the suffix
-	// "+x" the history is over the extended alphabet (alphabetX)
+	// "+x" the history is over the extended alphabet (alphabetX), with the suffix "+b" over the alphabet
+	// with copies that do not parse (alphabetB)
 	Reg string
 }
 
 func (v variant) ext() bool   { return strings.HasSuffix(v.Reg, "+x") }
-func (v variant) api() string { return strings.TrimSuffix(v.Reg, "+x") }
+func (v variant) brk() bool   { return strings.HasSuffix(v.Reg, "+b") }
+func (v variant) api() string { return strings.TrimSuffix(strings.TrimSuffix(v.Reg, "+x"), "+b") }
+
+// three(): a third loader L3 (plain, registered last) that always holds a usable copy "v0@L3" of n1
+func (v variant) three() bool { return v.Arr == "sep3" }
 
 func (v variant) String() string { return v.Arr + "/" + v.Start + "/" + v.Reg }
 
@@ -353,6 +394,7 @@ const (
 	orgL1    = 1
 	orgL2    = 2
 	orgChain = 3
+	orgL3    = 4
 )
 
 type entry struct {
@@ -360,6 +402,7 @@ type entry struct {
 	origin int
 	mtime  int64
 	text   string // the source text itself (the tag, plus the padding comment of a padded file)
+	broken bool   // (a loader's copy only, never a cached entry) the text does not parse
 }
 
 type world struct {
@@ -367,15 +410,19 @@ type world struct {
 	e      *twig.Engine
 	l1     *tsLoader
 	l2     *plainLoader
+	l3     *plainLoader // "sep3" only
 	st     *stats
 	cache  bool
 	reload bool
 	cached map[string]entry
 	dirty  map[string]bool // the cached entry of this name is not determined by the statement any more
-	ver    int
-	clock  int64
-	lo     int64 // timestamps handed out by oldL1: older than everything so far
-	kinds  map[string]int64
+	// soft: a reload of the cached entry of this name failed on a copy that does not parse; the statement
+	// does not say whether the old entry is still in the cache ("+b" alphabet only)
+	soft  map[string]bool
+	ver   int
+	clock int64
+	lo    int64 // timestamps handed out by oldL1: older than everything so far
+	kinds map[string]int64
 	// labelling only: the content of the name changed in L1 without a newer timestamp and the loaders
 	// have not been read for the name since
 	quiet map[string]bool
@@ -436,9 +483,12 @@ func newWorld(v variant) *world { return newWorldOpt(v, true) }
 func newWorldOpt(v variant, withEngine bool) *world {
 	st := newStats()
 	w := &world{v: v, st: st,
-		l1:    &tsLoader{src: map[string]string{}, mt: map[string]int64{}, pad: map[string]string{}, flen: map[string]int{}, st: st},
-		l2:    &plainLoader{src: map[string]string{"inc": incSource}, mt: map[string]int64{"inc": 10}, st: st},
-		cache: true, cached: map[string]entry{}, dirty: map[string]bool{}, clock: 10, lo: 10, kinds: map[string]int64{}}
+		l1:    &tsLoader{src: map[string]string{}, mt: map[string]int64{}, pad: map[string]string{}, flen: map[string]int{}, brk: map[string]bool{}, st: st},
+		l2:    &plainLoader{src: map[string]string{"inc": incSource}, mt: map[string]int64{"inc": 10}, brk: map[string]bool{}, st: st, id: "L2"},
+		cache: true, cached: map[string]entry{}, dirty: map[string]bool{}, soft: map[string]bool{}, clock: 10, lo: 10, kinds: map[string]int64{}}
+	if v.three() {
+		w.l3 = &plainLoader{src: map[string]string{"n1": l3Tag}, mt: map[string]int64{}, brk: map[string]bool{}, st: st, id: "L3"}
+	}
 	if withEngine {
 		w.e = twig.New()
 	}
@@ -493,12 +543,18 @@ func newWorldOpt(v variant, withEngine bool) *world {
 	case "ts2":
 		w.e.RegisterLoader(w.l1)
 		w.e.RegisterLoader(tsPlain{w.l2})
+	case "sep3":
+		w.e.RegisterLoader(w.l1)
+		w.e.RegisterLoader(w.l2)
+		w.e.RegisterLoader(w.l3)
 	default:
 		w.e.RegisterLoader(w.l1)
 		w.e.RegisterLoader(w.l2)
 	}
 	return w
 }
+
+const l3Tag = "v0@L3"
 
 // setPad: in the "+x" variants with real files every file of L1 is padded with a twig comment to a
 // controlled length: the length it had before (fileLen when it is new), or — flip — the other of the
@@ -527,15 +583,24 @@ func (w *world) setPad(n string, flip bool) {
 // cloneModel copies the reference state (no engine).
 func (w *world) cloneModel() *world {
 	c := &world{v: w.v, st: newStats(), cache: w.cache, reload: w.reload, ver: w.ver, clock: w.clock, lo: w.lo,
-		cached: map[string]entry{}, dirty: map[string]bool{}, kinds: map[string]int64{}}
-	c.l1 = &tsLoader{src: map[string]string{}, mt: map[string]int64{}, pad: map[string]string{}, flen: map[string]int{}, st: c.st}
+		cached: map[string]entry{}, dirty: map[string]bool{}, soft: map[string]bool{}, kinds: map[string]int64{}, l3: w.l3}
+	c.l1 = &tsLoader{src: map[string]string{}, mt: map[string]int64{}, pad: map[string]string{}, flen: map[string]int{}, brk: map[string]bool{}, st: c.st}
+	for k, x := range w.l1.brk {
+		c.l1.brk[k] = x
+	}
+	for k, x := range w.soft {
+		c.soft[k] = x
+	}
 	for k, x := range w.l1.pad {
 		c.l1.pad[k] = x
 	}
 	for k, x := range w.l1.flen {
 		c.l1.flen[k] = x
 	}
-	c.l2 = &plainLoader{src: map[string]string{}, mt: map[string]int64{}, st: c.st}
+	c.l2 = &plainLoader{src: map[string]string{}, mt: map[string]int64{}, brk: map[string]bool{}, st: c.st, id: "L2"}
+	for k, x := range w.l2.brk {
+		c.l2.brk[k] = x
+	}
 	for k, x := range w.l1.src {
 		c.l1.src[k] = x
 	}
@@ -582,6 +647,8 @@ func (w *world) applicable(o op) bool {
 	case opEqLen1:
 		_, ok := w.l1.src[o.n]
 		return ok && w.v.ext() && w.v.realFS()
+	case opBrk1, opBrk2:
+		return w.v.brk()
 	}
 	return true
 }
@@ -591,19 +658,19 @@ func (w *world) fromLoaders(n string) (entry, bool) {
 	in1 := func() (entry, bool) {
 		s, ok := w.l1.src[n]
 		if ok && w.v.chain() {
-			return entry{s, orgChain, 0, w.l1.content(n)}, true
+			return entry{s, orgChain, 0, w.l1.content(n), w.l1.brk[n]}, true
 		}
-		return entry{s, orgL1, w.l1.mt[n], w.l1.content(n)}, ok
+		return entry{s, orgL1, w.l1.mt[n], w.l1.content(n), w.l1.brk[n]}, ok
 	}
 	in2 := func() (entry, bool) {
 		s, ok := w.l2.src[n]
 		if ok && w.v.chain() {
-			return entry{s, orgChain, 0, s}, true
+			return entry{s, orgChain, 0, w.l2.content(n), w.l2.brk[n]}, true
 		}
 		if w.v.l2ts() {
-			return entry{s, orgL2, w.l2.mt[n], s}, ok
+			return entry{s, orgL2, w.l2.mt[n], w.l2.content(n), w.l2.brk[n]}, ok
 		}
-		return entry{s, orgL2, 0, s}, ok
+		return entry{s, orgL2, 0, w.l2.content(n), w.l2.brk[n]}, ok
 	}
 	first, second := in1, in2
 	if w.v.l2first() {
@@ -615,8 +682,16 @@ func (w *world) fromLoaders(n string) (entry, bool) {
 	if en, ok := second(); ok {
 		return en, true
 	}
+	if w.l3 != nil {
+		if s, ok := w.l3.src[n]; ok {
+			return entry{s, orgL3, 0, s, false}, true
+		}
+	}
 	return entry{}, false
 }
+
+// unparsableSomewhere: some loader holds a copy of the name that does not parse (labelling only).
+func (w *world) unparsableSomewhere(n string) bool { return w.l1.brk[n] || w.l2.brk[n] }
 
 // timed: the loader this origin stands for reports timestamps; mtimeNow is what it reports now.
 func (w *world) timed(origin int) bool {
@@ -648,6 +723,9 @@ type expect struct {
 	tag      string
 	found    bool
 	dontcare bool
+	// fail: the first loader that has the name holds a copy that does not parse: the call has to fail
+	// (whatever the error), in particular it must not serve a later loader's copy or a stale one
+	fail     bool
 	noReread bool // the loaders must not be read (auto-reload on, nothing changed)
 	reread   bool // the loaders must be consulted (cache off)
 }
@@ -664,10 +742,23 @@ func (w *world) modelGet(n string) expect {
 		if !ok {
 			return expect{kind: "notfound-cache-off"}
 		}
-		return expect{kind: "reread-cache-off", tag: en.tag, found: true, reread: true}
+		if en.broken {
+			return expect{kind: "unparsable-first-loader-wins-cache-off", fail: true}
+		}
+		return expect{kind: "reread-cache-off" + w.labelB(n), tag: en.tag, found: true, reread: true}
 	}
 	if w.dirty[n] {
 		return expect{kind: "dontcare-dirty", dontcare: true}
+	}
+	if w.soft[n] && !w.reload {
+		// a reload of this entry failed on a copy that does not parse. Whether the old entry is still in the
+		// cache is not stated ("stays as it was" / nothing to stay): with auto-reload off the two readings
+		// differ — left open. (With auto-reload on they agree: the loader that served the entry still
+		// reports a newer time or has lost the name, timestamps only move forward here, so the lookup reads
+		// the loaders in registration order either way.)
+		w.dirty[n] = true
+		delete(w.soft, n)
+		return expect{kind: "dontcare-after-reload-failed-on-unparsable-copy", dontcare: true}
 	}
 	if c, ok := w.cached[n]; ok {
 		if !w.reload {
@@ -701,11 +792,18 @@ func (w *world) modelGet(n string) expect {
 				if !ok {
 					return expect{kind: "notfound-after-delete"} // the cache keeps what it has
 				}
-				w.cached[n] = en
-				if present && en.origin != c.origin {
-					return expect{kind: "reload-newer-earlier-loader-wins", tag: en.tag, found: true}
+				if en.broken {
+					// the first loader that has the name wins — what it has does not parse, so the call fails;
+					// what becomes of the old entry is not stated
+					w.soft[n] = true
+					return expect{kind: "unparsable-first-loader-wins-reload", fail: true}
 				}
-				return expect{kind: "reload-newer", tag: en.tag, found: true}
+				w.cached[n] = en
+				delete(w.soft, n)
+				if present && en.origin != c.origin {
+					return expect{kind: "reload-newer-earlier-loader-wins" + w.labelB(n), tag: en.tag, found: true}
+				}
+				return expect{kind: "reload-newer" + w.labelB(n), tag: en.tag, found: true}
 			}
 			if w.tagNow(c.origin, n) != c.tag {
 				// the content changed where it came from, but the timestamp there is not newer than the
@@ -737,8 +835,21 @@ func (w *world) modelGet(n string) expect {
 	if !ok {
 		return expect{kind: "notfound"}
 	}
+	if en.broken {
+		return expect{kind: "unparsable-first-loader-wins-first-load", fail: true} // nothing to cache
+	}
 	w.cached[n] = en
-	return expect{kind: "fresh", tag: en.tag, found: true}
+	return expect{kind: "fresh" + w.labelB(n), tag: en.tag, found: true}
+}
+
+// labelB splits the kind counters of the "+b" variants: the loaders were read and served a usable copy
+// while another loader (necessarily a later one, or one the served loader shadows) holds a copy that
+// does not parse. A label only; the demands are the same.
+func (w *world) labelB(n string) string {
+	if w.v.brk() && w.unparsableSomewhere(n) {
+		return "-another-loader-unparsable"
+	}
+	return ""
 }
 
 func (w *world) listing() string {
@@ -842,13 +953,19 @@ func (w *world) apply(o op) string {
 		if err != nil {
 			return fmt.Sprintf("%v failed: %v", o, err)
 		}
-		w.cached[o.n] = entry{tag, orgReg, 0, src}
+		w.cached[o.n] = entry{tag, orgReg, 0, src, false}
 		delete(w.dirty, o.n)
-	case opMod1:
+		delete(w.soft, o.n)
+	case opMod1, opBrk1:
 		delete(w.gone, o.n) // the file is there again
 		w.ver++
 		w.clock++
 		w.l1.src[o.n], w.l1.mt[o.n] = fmt.Sprintf("v%d@L1", w.ver), w.clock
+		if o.k == opBrk1 {
+			w.l1.brk[o.n] = true
+		} else {
+			delete(w.l1.brk, o.n)
+		}
 		w.setPad(o.n, false)
 		w.l1.write(o.n)
 	case opEq1, opEqLen1, opOld1:
@@ -865,9 +982,14 @@ func (w *world) apply(o op) string {
 			w.quiet = map[string]bool{}
 		}
 		w.quiet[o.n] = true
-	case opMod2:
+	case opMod2, opBrk2:
 		w.ver++
 		w.l2.src[o.n] = fmt.Sprintf("v%d@L2", w.ver)
+		if o.k == opBrk2 {
+			w.l2.brk[o.n] = true
+		} else {
+			delete(w.l2.brk, o.n)
+		}
 		if w.v.l2ts() {
 			w.clock++
 			w.l2.mt[o.n] = w.clock
@@ -891,11 +1013,13 @@ func (w *world) apply(o op) string {
 		delete(w.l1.mt, o.n)
 		delete(w.l1.pad, o.n)
 		delete(w.l1.flen, o.n)
+		delete(w.l1.brk, o.n)
 		delete(w.quiet, o.n)
 		w.l1.write(o.n)
 	case opDel2:
 		delete(w.l2.src, o.n)
 		delete(w.l2.mt, o.n)
+		delete(w.l2.brk, o.n)
 	case opCache0:
 		w.setCfg(func(e *twig.Engine) { e.SetCache(false) })
 		w.cache = false
@@ -926,6 +1050,12 @@ func (w *world) setCfg(f func(*twig.Engine)) {
 
 func (w *world) compare(o op, n string, ex expect, out, via string, err error, listBefore string, loads0, cons0 int) string {
 	cfg := fmt.Sprintf("[cache=%v auto-reload=%v]", w.cache, w.reload)
+	if ex.fail {
+		if err == nil {
+			return fmt.Sprintf("%v %s%s served %q although the first loader that has %q holds a copy that does not parse: the first that has the name wins, the call has to fail (%s)", o, via, cfg, out, n, ex.kind)
+		}
+		return ""
+	}
 	if ex.found {
 		if err != nil {
 			return fmt.Sprintf("%v %s%s failed: %v; the configuration calls for %q (%s)", o, via, cfg, err, ex.tag, ex.kind)
@@ -1019,11 +1149,17 @@ func (w *world) canon() string {
 		b = append(b, '|')
 		if s, ok := w.l1.src[n]; ok {
 			b = append(b, 'a', byte('0'+vrank(s)), '@', byte('0'+trank(w.l1.mt[n])))
+			if w.l1.brk[n] {
+				b = append(b, 'x')
+			}
 		}
 		if s, ok := w.l2.src[n]; ok && n != "inc" {
 			b = append(b, 'b', byte('0'+vrank(s)))
 			if w.v.l2ts() {
 				b = append(b, '@', byte('0'+trank(w.l2.mt[n])))
+			}
+			if w.l2.brk[n] {
+				b = append(b, 'x')
 			}
 		}
 		if c, ok := w.cached[n]; ok {
@@ -1041,6 +1177,9 @@ func (w *world) canon() string {
 		}
 		if w.dirty[n] {
 			b = append(b, 'd')
+		}
+		if w.soft[n] {
+			b = append(b, 'f')
 		}
 	}
 	return string(b)
@@ -1104,6 +1243,16 @@ func applicableSeq(v variant, h []op) bool {
 		case opMod1:
 			l1[o.n] = true
 		case opMod2:
+			l2[o.n] = true
+		case opBrk1:
+			if !v.brk() {
+				return false
+			}
+			l1[o.n] = true
+		case opBrk2:
+			if !v.brk() {
+				return false
+			}
 			l2[o.n] = true
 		case opTouch1:
 			if !l1[o.n] {
@@ -1324,7 +1473,12 @@ func closureOf(v variant, maxStates, maxDepth int) ([][]op, bool) {
 	if v.ext() {
 		mv.Reg = "str+x" // the extended alphabet has more reference states
 	}
+	if v.brk() {
+		mv.Reg = "str+b"
+	}
 	switch {
+	case v.three():
+		mv.Arr = "sep3"
 	case v.chain() && v.l2first():
 		mv.Arr = "chainrev"
 	case v.chain():
@@ -1429,6 +1583,12 @@ func plans(thorough bool) []plan {
 		// loses the name (newer / equal / older timestamp), then the lookup — four operations
 		{"sep", "seededar", "str+x"},
 	}
+	// copies that do not parse ("+b"): two loaders in either order, both timestamp-aware, behind a
+	// ChainLoader, three loaders (the third always holds a usable copy), a real FileSystemLoader
+	brkQuick := []variant{
+		{"sep", "seeded", "str+b"}, {"sep3", "seeded", "str+b"}, {"rev", "seeded", "str+b"},
+		{"ts2", "seeded", "str+b"}, {"chain", "seeded", "str+b"},
+	}
 	if thorough {
 		for _, v := range all {
 			ps = append(ps, plan{v, 5, 3, false})
@@ -1455,6 +1615,20 @@ func plans(thorough bool) []plan {
 		} {
 			ps = append(ps, plan{v, 4, 2, false})
 		}
+		for i, v := range brkQuick {
+			if i < 2 {
+				ps = append(ps, plan{v, 5, 3, false}) // sep, sep3
+			} else {
+				ps = append(ps, plan{v, 4, 2, false})
+			}
+		}
+		for _, v := range []variant{
+			{"fs", "seeded", "str+b"}, {"sep3", "late", "str+b"}, {"sep3", "empty", "str+b"}, {"sep", "seededar", "str+b"},
+			{"sep", "empty", "str+b"}, {"sep", "seeded", "tpl+b"}, {"sep", "seeded", "cmp+b"}, {"rev", "late", "str+b"},
+			{"chainrev", "seeded", "str+b"}, {"builtin", "seeded", "str+b"},
+		} {
+			ps = append(ps, plan{v, 4, 2, false})
+		}
 		ps = append(ps, plan{variant{"sep", "seeded", "str"}, 6, 4, true}, plan{variant{"sep", "empty", "str"}, 6, 4, true})
 	} else {
 		for _, v := range all {
@@ -1471,6 +1645,10 @@ func plans(thorough bool) []plan {
 		for _, v := range extQuick {
 			ps = append(ps, plan{v, 4, 2, false})
 		}
+		for _, v := range brkQuick {
+			ps = append(ps, plan{v, 4, 2, false})
+		}
+		ps = append(ps, plan{variant{"fs", "seeded", "str+b"}, 3, 2, false})
 		// the one depth-5 pass (two fifths of all histories of the tier) comes after phase B, so that a
 		// deadline on an overloaded machine cuts it and not the smaller families
 		ps = append(ps, plan{variant{"sep", "seeded", "str"}, 5, 3, true})
@@ -1505,6 +1683,12 @@ func bfsPlans(thorough bool) []bfsPlan {
 			{variant{"chain", "seeded", "str+x"}, 20000, 0},
 			{variant{"fs", "seeded", "str+x"}, 10000, 0},
 			{variant{"chainfs", "seeded", "str+x"}, 10000, 0},
+			// copies that do not parse
+			{variant{"sep", "seeded", "str+b"}, 30000, 0},
+			{variant{"sep3", "seeded", "str+b"}, 20000, 0},
+			{variant{"ts2", "seeded", "str+b"}, 20000, 0},
+			{variant{"rev", "seeded", "str+b"}, 20000, 0},
+			{variant{"fs", "seeded", "str+b"}, 5000, 0},
 		}
 	}
 	return []bfsPlan{
@@ -1524,6 +1708,12 @@ func bfsPlans(thorough bool) []bfsPlan {
 		{variant{"sep", "seeded", "tpl+x"}, all, 4},
 		{variant{"fs", "seeded", "str+x"}, all, 3},
 		{variant{"chainfs", "seeded", "str+x"}, all, 3},
+		// copies that do not parse: every state within four (three) operations of the start state; in
+		// "seededar" auto-reload is on from the start, so that "load, the copy becomes unparsable, load
+		// (fails), the copy is repaired, load" is one of the histories
+		{variant{"sep", "seededar", "str+b"}, all, 4},
+		{variant{"sep3", "seeded", "str+b"}, all, 3},
+		{variant{"ts2", "seeded", "str+b"}, all, 3},
 	}
 }
 
@@ -1539,7 +1729,7 @@ func only(v variant) bool {
 		return true
 	}
 	for _, a := range strings.Split(sel, ",") {
-		if a == v.Arr || (a == "+x" && v.ext()) {
+		if a == v.Arr || (a == "+x" && v.ext()) || (a == "+b" && v.brk()) {
 			return true
 		}
 	}
@@ -1552,9 +1742,9 @@ func main() {
 		Level: "model_checking",
 		Rule: "phase A: every history over the 19-letter alphabet (load/render/render-through-include, register, modify in L1/L2, touch, delete, the six configuration switches; " +
 			"two names; a 20th letter, touch in L2, where L2 reports timestamps too; in the \"+x\" variants three or four more letters: registration of text IDENTICAL to what the cache holds for the name, " +
-			"new content in L1 with the SAME timestamp, with an OLDER timestamp, and — real files — with the same timestamp and a DIFFERENT length, all other rewrites keeping the file length) up to the depth bound, for each loader arrangement (timestamp-aware L1 then plain L2 / ChainLoader / followed by empty built-in loaders / real FileSystemLoader with controlled modification times / " +
+			"new content in L1 with the SAME timestamp, with an OLDER timestamp, and — real files — with the same timestamp and a DIFFERENT length, all other rewrites keeping the file length; in the \"+b\" variants two more letters: the copy of n1 in L1 / in L2 is replaced by text that does NOT PARSE (an unclosed tag; newer timestamp), where the lookup has to fail whenever the first loader that has the name holds such a copy) up to the depth bound, for each loader arrangement (timestamp-aware L1 then plain L2 / ChainLoader / followed by empty built-in loaders / real FileSystemLoader with controlled modification times / " +
 			"plain L2 registered BEFORE the timestamp-aware L1, in memory and as a real FileSystemLoader / two timestamp-aware loaders / " +
-			"a real FileSystemLoader INSIDE a ChainLoader in front of, and behind, the in-memory loader that holds the same names (delL1 removes the file, modL1 re-creates it)), start state (seeded / empty loaders / only the loader registered last has the name) and registration API " +
+			"a real FileSystemLoader INSIDE a ChainLoader in front of, and behind, the in-memory loader that holds the same names (delL1 removes the file, modL1 re-creates it) / \"+b\" only: three loaders, the third always holding a usable copy of the name), start state (seeded / empty loaders / only the loader registered last has the name) and registration API " +
 			"(RegisterString / RegisterTemplate / RegisterCompiledTemplate), each replayed on a fresh engine and compared step by step with the reference machine; " +
 			"phase B: breadth-first search from the start state over the reference states (versions and timestamps reduced to ranks), to closure in the thorough tier. " +
 			"Non-trivial = the explored subtree contains at least one Load/Render whose result the statement determines",
@@ -1563,7 +1753,9 @@ func main() {
 			"left open by the statement, not demanded: registration while the cache is off; Load of a registered name while the cache is off; with auto-reload on, an entry cached from a loader without timestamps (L2, ChainLoader) whose source changed or that an earlier loader now shadows, and an entry cached from a timestamp-aware loader that is unchanged there while an earlier loader has gained the name (as soon as that loader reports a strictly newer time or loses the name, the reload in registration order is demanded)",
 			"outside the \"+x\" variants timestamps only move forward and every content change comes with a newer timestamp; in the \"+x\" variants a content change with an equal or older timestamp is demanded to be served where the statement determines it (cache off, first load, auto-reload off: the entry as it was, registered name: the registration) and left open for an auto-reload lookup of an entry cached from that loader (nothing to go by)",
 			"the reference states do not include what a loader may remember about files it has read: such defects are reached by phase A (every history up to the depth bound), not by phase B",
-			"two names plus one fixed including template, two loaders (plus empty built-in loaders in one arrangement); one ChainLoader of two loaders, in both orders",
+			"\"+b\" variants: a lookup whose first loader that has the name holds a copy that does not parse is demanded to fail (any error), at first load, with the cache off and at reload time; after a reload that failed that way the statement does not say whether the old entry is still cached, so a following lookup with auto-reload off is left open (with auto-reload on both readings read the loaders in registration order, which is demanded)",
+			"two names plus one fixed including template, two loaders (plus empty built-in loaders in one arrangement, plus a third loader with a fixed usable copy in the \"sep3\" arrangement); one ChainLoader of two loaders, in both orders",
+			"calls are made one after the other: the statement quantifies over sequences of calls; overlapping calls are decided by C02",
 		},
 		QuickDeadline:    quickDeadline,
 		ThoroughDeadline: thoroughDeadline,
